@@ -84,7 +84,7 @@ class Payloads:
             from d42 import schema as _schema
             import types as _types
             src = r.choice(["schema.dict({'x': schema.int})", "schema.dict", "schema.dict({...: ...})", "schema.int", "schema.list([schema.str])",
-                            "schema.dict({'x': schema.dict({'y': schema.none})})", "MappingProxyType({'a': 1})", "MappingProxyType({})"])
+                            "schema.dict({'x': schema.dict({'y': schema.none})})", "MappingProxyType({'a': 1})", "MappingProxyType({})", "...", "..."])     # `...` under an ordinary key is a payload like any other
             v = eval(src, {"schema": _schema, "MappingProxyType": _types.MappingProxyType})
         elif kind <= 2:
             v, src = S(i), f"S({i})"
@@ -215,18 +215,18 @@ def ckey(k, optional):
     return "RKOther"
 
 
-def cval(v, pay, optional, depth=0):
+def cval(v, pay, optional, depth=0, marker_entry=True):
     if depth > 40:
         raise absn.Unmodelled("too deep")
-    if v is ...:
-        return "REll"
+    if v is ... and marker_entry:
+        return "REll"          # the value of the `...: ...` entry; under an ordinary key `...` is a payload like any other
     if isinstance(v, dict):
         return "(RDict " + cdict(v, pay, optional, depth + 1) + ")"
     return f"(RLeaf {pay.id_of(v)})"
 
 
 def cdict(d, pay, optional, depth=0):
-    return absn.clist([f"({ckey(k, optional)}, {cval(v, pay, optional, depth)})" for k, v in d.items()])
+    return absn.clist([f"({ckey(k, optional)}, {cval(v, pay, optional, depth, marker_entry=k is ...)})" for k, v in d.items()])
 
 
 def observe(fn, pay, optional):
@@ -392,7 +392,7 @@ def run(ctx):
         if ell:
             nested[...] = ...
             nsrc = nsrc[:-1] + (", " if len(nsrc) > 2 else "") + "...: ...}"
-        din = "[" + "; ".join(f"({ckey(k, optional)}, {cval(v, pay, optional)})" for k, v in d.items()) + "]"
+        din = "[" + "; ".join(f"({ckey(k, optional)}, {cval(v, pay, optional, marker_entry=k is ...)})" for k, v in d.items()) + "]"
         try:
             obs, res, exc = observe(lambda: rollout(d, separator=sep), pay, optional)
         except absn.Unmodelled:
